@@ -415,5 +415,38 @@ func runC05(r *Run, replay *Case) {
 		}
 		r.Add(cc)
 	}
+	// a RECURSIVE component: it refers to itself through its own shorthand tag (a tree node, a nested menu, a comment thread); the same tree
+	// written with <template include> is the reference, and the nodes' names fix the expected markers
+	{
+		tree := map[string]any{"name": "root", "children": []any{
+			map[string]any{"name": "child-a", "children": []any{map[string]any{"name": "grandchild-a1"}}},
+			map[string]any{"name": "child-b"}}}
+		mk := func(tagged bool) map[string]string {
+			inner := `<template v-for="c in node.children" include="components/TreeNode.vuego" :node="c"></template>`
+			page := `<ul><template include="components/TreeNode.vuego" :node="tree"></template></ul>`
+			if tagged {
+				inner = `<tree-node v-for="c in node.children" :node="c"></tree-node>`
+				page = `<ul><tree-node :node="tree"></tree-node></ul>`
+			}
+			return map[string]string{"p.vuego": page, "components/TreeNode.vuego": `<li>«node:{{ node.name }}»<ul>` + inner + `</ul></li>`}
+		}
+		d := map[string]any{"tree": tree}
+		rt := renderPage(mk(true), "p.vuego", d, vuego.WithComponents())
+		rp := renderPage(mk(false), "p.vuego", d, vuego.WithComponents())
+		cc := &Case{Name: "shorthand recursive", Input: map[string]any{"desc": "shorthand-recursive", "files": mk(true)}, Impl: rt.canon(), Oracle: &Verdict{OK: true}, Key: "shorthand-recursive"}
+		var got []string
+		for _, m := range c05Re.FindAllStringSubmatch(rt.Out, -1) {
+			got = append(got, m[1])
+		}
+		want := "node:root,node:child-a,node:grandchild-a1,node:child-b"
+		switch {
+		case rt.Err != "" || strings.Join(got, ",") != want:
+			cc.Oracle = &Verdict{OK: false, Class: "shorthand-not-equivalent:recursive", Detail: fmt.Sprintf("a component using its own shorthand tag renders %v (%s), expected %s; output %q", got, rt.Err, want, rt.Out)}
+		case strings.Join(strings.Fields(rt.Out), "") != strings.Join(strings.Fields(rp.Out), ""):
+			cc.Oracle = &Verdict{OK: false, Class: "shorthand-not-equivalent:recursive", Detail: fmt.Sprintf("tag form gives %q, <template include> gives %q", rt.Out, rp.Out)}
+		}
+		r.Add(cc)
+		pendingPages = append(pendingPages, pageCase("shorthand-recursive", mk(true), map[string]string{"tree-node": "components/TreeNode.vuego"}, "p.vuego", d, "shorthand:recursive"))
+	}
 	r.Res.Exhaustive = true
 }
